@@ -12,6 +12,8 @@
 //   codec_drv pieces <shard> <nshards>         template filters fed by ONE streamable object whose operator<< issues
 //                                              several writes (all 2-/3-piece length combinations, char-by-char, random
 //                                              piece sequences, booster::locale::format); judged on the concatenation
+//   codec_drv ranges <shard> <nshards>         every (begin,end) entry point on sub-ranges of larger buffers with adversarial
+//                                              neighbours and next to inaccessible pages, against the std::string forms on a copy
 //   codec_drv urlsb                              util::urlencode(begin,end,streambuf&) into truncating sinks
 //   codec_drv big <n> <maxlen>                 a few long random strings
 // One "Call" event per input: the results of all functions, grouped by identical outcome.  The driver
@@ -25,6 +27,10 @@
 #include <sstream>
 #include <iostream>
 #include <map>
+#include <set>
+#include <signal.h>
+#include <unistd.h>
+#include <sys/mman.h>
 
 typedef unsigned char uchar;
 static vt::out tr;
@@ -59,6 +65,7 @@ struct sinkspec { char const *kind; long cap; int chunk; };
 // ------------------------------------------------------------------ results
 struct result {
 	std::string fn, out, sink; long cap; bool fail; long ret; long size; bool canary;
+	std::string ctx;   // where the input range was placed (mode ranges); not part of the outcome
 	result(char const *f) : fn(f), sink("none"), cap(-1), fail(false), ret(-2), size(-2), canary(true) {}
 	std::string key() const
 	{
@@ -82,12 +89,19 @@ static std::string group(std::vector<result> const &rs)
 	std::string s="[";
 	for(size_t i=0;i<order.size();i++) {
 		std::vector<result const *> &v=g[order[i]];
-		std::string fns="[";
-		for(size_t k=0;k<v.size();k++) { if(k) fns+=','; fns+='"'+v[k]->fn+'"'; }
-		fns+="]";
+		std::string fns="[", ctx="[";
+		std::set<std::string> seen, seenctx;
+		for(size_t k=0;k<v.size();k++) {
+			if(seen.insert(v[k]->fn).second) { if(fns.size()>1) fns+=','; fns+='"'+v[k]->fn+'"'; }
+			if(!v[k]->ctx.empty() && seenctx.size()<3 && seenctx.insert(v[k]->ctx).second) { if(ctx.size()>1) ctx+=','; ctx+='"'+v[k]->ctx+'"'; }
+		}
+		fns+="]"; ctx+="]";
 		result const &r=*v[0];
 		if(i) s+=',';
-		s+=vt::J().raw("fns",fns).bytes("out",r.out).s("sink",r.sink).i("cap",r.cap).b("fail",r.fail).i("ret",r.ret).i("size",r.size).b("canary",r.canary).str();
+		vt::J j;
+		j.raw("fns",fns).bytes("out",r.out).s("sink",r.sink).i("cap",r.cap).b("fail",r.fail).i("ret",r.ret).i("size",r.size).b("canary",r.canary);
+		if(ctx.size()>2) j.raw("ctx",ctx);
+		s+=j.str();
 	}
 	return s+"]";
 }
@@ -559,6 +573,219 @@ static int do_pieces(int shard,int nshards)
 	return 0;
 }
 
+// ------------------------------------------------------------------ (begin,end) ranges inside larger buffers
+// Every entry point that takes a range is called on a sub-range of a larger buffer whose neighbouring bytes are
+// adversarial (hex digits, '%', '+', '=', base64 characters, NUL, 0xFF) and on ranges that end on the last byte
+// before / start on the first byte after an inaccessible page; the std::string overloads are called on a copy of
+// exactly the range.  TLC judges every result by the range content alone and demands that the range forms
+// equal the copy's result (RangeLocal).  An access outside the range next to the inaccessible page kills the
+// process: the signal handler logs a "Died" event, which no action of the specification accepts.
+static char const *cur_fn="";
+static std::string cur_in, cur_ctx;
+static void died(int sig)
+{
+	if(tr.f) {
+		fflush(tr.f);
+		std::string l=vt::J().s("e","Died").i("sig",sig).s("fn",cur_fn).s("ctx",cur_ctx).bytes("in",cur_in).str();
+		tr.line("{\"e\":\"Reset\",\"kind\":\"died\"}");
+		tr.line(l);
+		fflush(tr.f);
+	}
+	_exit(0);
+}
+
+struct pagebox {
+	char *base; long ps;
+	pagebox()
+	{
+		ps=sysconf(_SC_PAGESIZE);
+		base=(char*)mmap(0,3*ps,PROT_NONE,MAP_PRIVATE|MAP_ANONYMOUS,-1,0);
+		if(base==MAP_FAILED || mprotect(base+ps,ps,PROT_READ|PROT_WRITE)!=0) { perror("mmap"); exit(3); }
+	}
+	char *lo() { return base+ps; }      // first accessible byte
+	char *hi() { return base+2*ps; }    // first inaccessible byte after the page
+	void fill(char c) { memset(lo(),c,ps); }
+};
+
+static pagebox *inbox=0, *outbox=0;
+
+// the range forms on [b,e); target buffers of the pointer forms end at an inaccessible page when paged
+static void range_forms(char const *b,char const *e,std::string const &ctx,bool paged,std::vector<result> &rs)
+{
+	using namespace cppcms;
+	size_t first=rs.size();
+	size_t n=e-b;
+	uchar const *ub=reinterpret_cast<uchar const *>(b), *ue=reinterpret_cast<uchar const *>(e);
+	cur_in.assign(b,n); cur_ctx=ctx;
+	cur_fn="urldecode_ptr";
+	{ result r("urldecode_ptr"); r.out=util::urldecode(b,e); rs.push_back(r); }
+	cur_fn="escape_sb";
+	{ result r("escape_sb"); sinkbuf sb(-1,0); r.fail=util::escape(b,e,sb)!=0; r.out=sb.data; rs.push_back(r); }
+	cur_fn="escape_os";
+	{ result r("escape_os"); std::ostringstream os; util::escape(b,e,os); r.fail=!os; r.out=os.str(); rs.push_back(r); }
+	cur_fn="urlencode_sb";
+	{ result r("urlencode_sb"); sinkbuf sb(-1,0); r.fail=util::urlencode(b,e,sb)!=0; r.out=sb.data; rs.push_back(r); }
+	cur_fn="urlencode_os";
+	{ result r("urlencode_os"); std::ostringstream os; util::urlencode(b,e,os); r.fail=!os; r.out=os.str(); rs.push_back(r); }
+	cur_fn="b64enc_os";
+	{ result r("b64enc_os"); std::ostringstream os; b64url::encode(ub,ue,os); r.fail=!os; r.out=os.str(); rs.push_back(r); }
+	int es=b64url::encoded_size(n), ds=b64url::decoded_size(n);
+	size_t dcap = ds>=0 ? ds : (n/4)*3;
+	if(!paged) {
+		cur_fn="b64enc_ptr";
+		{ result r("b64enc_ptr"); guarded g(es<0?0:es); uchar *end=b64url::encode(ub,ue,g.p());
+		  r.ret=end-g.p(); r.size=es; r.canary=g.intact(); r.cap=g.cap; r.out=g.bytes(r.ret); rs.push_back(r); }
+		cur_fn="b64dec_ptr";
+		{ result r("b64dec_ptr"); guarded g(dcap); uchar *end=b64url::decode(ub,ue,g.p());
+		  r.ret=end-g.p(); r.size=ds; r.canary=g.intact(); r.cap=g.cap; r.out=g.bytes(r.ret); rs.push_back(r); }
+	}
+	else {
+		// exactly sized targets whose last byte is the last accessible byte
+		cur_fn="b64enc_ptr";
+		{ result r("b64enc_ptr"); outbox->fill('\xEE'); size_t cap=es<0?0:es; uchar *t=reinterpret_cast<uchar*>(outbox->hi()-cap);
+		  uchar *end=b64url::encode(ub,ue,t); r.ret=end-t; r.size=es; r.cap=cap;
+		  r.canary = t[-1]==0xEE; r.out.assign(reinterpret_cast<char*>(t),(r.ret<0||(size_t)r.ret>cap)?cap:r.ret); rs.push_back(r); }
+		cur_fn="b64dec_ptr";
+		{ result r("b64dec_ptr"); outbox->fill('\xEE'); uchar *t=reinterpret_cast<uchar*>(outbox->hi()-dcap);
+		  uchar *end=b64url::decode(ub,ue,t); r.ret=end-t; r.size=ds; r.cap=dcap;
+		  r.canary = t[-1]==0xEE; r.out.assign(reinterpret_cast<char*>(t),(r.ret<0||(size_t)r.ret>dcap)?dcap:r.ret); rs.push_back(r); }
+	}
+	cur_fn="";
+	for(size_t i=first;i<rs.size();i++) rs[i].ctx=ctx;
+}
+
+// the std::string overloads on a copy of exactly the range
+static void copy_forms(std::string const &c,std::vector<result> &rs)
+{
+	using namespace cppcms;
+	size_t first=rs.size();
+	{ result r("escape_str"); r.out=util::escape(c); rs.push_back(r); }
+	{ result r("urlencode_str"); r.out=util::urlencode(c); rs.push_back(r); }
+	{ result r("urldecode_str"); r.out=util::urldecode(c); rs.push_back(r); }
+	{ result r("b64enc_str"); r.out=b64url::encode(c); r.size=b64url::encoded_size(c.size()); rs.push_back(r); }
+	{ result r("b64dec_str"); std::string o; bool ok=b64url::decode(c,o); r.ret=ok?1:0; r.out=o; r.size=b64url::decoded_size(c.size()); rs.push_back(r); }
+	for(size_t i=first;i<rs.size();i++) rs[i].ctx="copy";
+}
+
+static std::string hexof(std::string const &s)
+{
+	static char const d[]="0123456789abcdef";
+	std::string o;
+	for(size_t i=0;i<s.size();i++) { o+=d[(uchar)s[i]>>4]; o+=d[(uchar)s[i]&15]; }
+	return o;
+}
+
+static void range_event(std::string const &c,std::vector<result> const &rs)
+{
+	reset_every(60,"ranges");
+	tr.line(vt::J().s("e","Range").bytes("in",c).raw("r",group(rs)).str());
+}
+
+// the content c as a range inside buffers with every adversarial continuation
+static void range_in_buffers(std::string const &c)
+{
+	static char const *after[]={"0","4","41","a","F","f0","%","%41","+","=","==","A","QQ","-","_","<","&"};
+	std::vector<result> rs;
+	copy_forms(c,rs);
+	for(size_t k=0;k<sizeof(after)/sizeof(after[0])+3;k++) {
+		std::string aft = k<sizeof(after)/sizeof(after[0]) ? std::string(after[k]) : k==sizeof(after)/sizeof(after[0]) ? std::string("\0\0",2) :
+				  k==sizeof(after)/sizeof(after[0])+1 ? std::string("\xFF\xFF") : std::string();
+		static char const *before[]={"%","%4","=","A"};
+		std::string pre=before[k%4];
+		std::string buf=pre+c+aft;
+		// an exactly sized heap block, so that nothing but the chosen bytes follows inside the allocation
+		char *m=(char*)malloc(buf.size()?buf.size():1);
+		memcpy(m,buf.data(),buf.size());
+		range_forms(m+pre.size(),m+pre.size()+c.size(),"before="+hexof(pre)+",after="+hexof(aft),false,rs);
+		free(m);
+	}
+	range_event(c,rs);
+}
+
+// the content c ending on the last accessible byte, and starting on the first one
+static void range_at_pages(std::string const &c)
+{
+	std::vector<result> rs;
+	copy_forms(c,rs);
+	inbox->fill('4');
+	char *p=inbox->hi()-c.size();
+	memcpy(p,c.data(),c.size());
+	if(c.size()<(size_t)inbox->ps) p[-1]='%';
+	range_forms(p,p+c.size(),"pageend",true,rs);
+	inbox->fill('A');
+	p=inbox->lo();
+	memcpy(p,c.data(),c.size());
+	p[c.size()]='4'; p[c.size()+1]='1';
+	range_forms(p,p+c.size(),"pagestart,after=3431",true,rs);
+	range_event(c,rs);
+}
+
+static int do_ranges(int shard,int nshards)
+{
+	bool thorough = std::string(getenv("VERIF_TIER")?getenv("VERIF_TIER"):"quick")=="thorough";
+	vt::rng r(vt::envl("VERIF_SEED",1)*86243+shard);
+	inbox=new pagebox(); outbox=new pagebox();
+	signal(SIGSEGV,died); signal(SIGBUS,died);
+	std::vector<std::string> contents;
+	// all strings up to length 3 (4 in the thorough tier) over the bytes the codecs treat specially
+	static char const sigma[]={'%','+','4','a','G','=','Q','<','\xFF'};
+	int maxlen = thorough ? 4 : 3;
+	{
+		std::vector<std::string> cur(1,std::string());
+		contents.push_back("");
+		for(int len=1;len<=maxlen;len++) {
+			std::vector<std::string> next;
+			for(size_t i=0;i<cur.size();i++) for(size_t k=0;k<sizeof(sigma);k++) next.push_back(cur[i]+sigma[k]);
+			contents.insert(contents.end(),next.begin(),next.end());
+			cur.swap(next);
+		}
+	}
+	// every prefix / suffix / infix range of buffers with malformed tails
+	static char const *curated[]={"q=%41","a=%4","%","%4","%G1","%4G","%%41","x%2","+%2b","k=v&x=%","QUJDRA","QUJD=","QQ==","-_-_A","QUJDRUY",
+		"<a href='x'>&","a&amp;b","%C3%A9+%e2%82%ac"};
+	std::set<std::string> seen(contents.begin(),contents.end());
+	for(size_t q=0;q<sizeof(curated)/sizeof(curated[0]);q++) {
+		std::string b=curated[q];
+		for(size_t i=0;i<=b.size();i++) for(size_t j=i;j<=b.size();j++) {
+			std::string c=b.substr(i,j-i);
+			if(seen.insert(c).second) contents.push_back(c);
+		}
+	}
+	unsigned long idx=0;
+	// pass 1: inside heap buffers with adversarial neighbours
+	for(size_t i=0;i<contents.size();i++) if((int)(idx++%nshards)==shard) range_in_buffers(contents[i]);
+	// random buffers of the other drivers' families: all ranges of short ones, sampled ranges of long ones, in place
+	int nbuf = thorough ? 2500 : 90;
+	std::vector<std::string> sampled;
+	for(int i=0;i<nbuf;i++) {
+		std::string b=rand_string(r,(i%10==9)?400:24);
+		if((int)(idx++%nshards)!=shard) continue;
+		std::vector<std::pair<size_t,size_t> > rg;
+		if(b.size()<=5) { for(size_t x=0;x<=b.size();x++) for(size_t y=x;y<=b.size();y++) rg.push_back(std::make_pair(x,y)); }
+		else for(int k=0;k<6;k++) {
+			size_t x= k==0 ? 0 : r(b.size()+1), y= k==1 ? b.size() : x+r(b.size()-x+1);
+			if(k==0) { x=0; y=r(b.size()+1); }
+			rg.push_back(std::make_pair(x,y));
+		}
+		char *m=(char*)malloc(b.size()?b.size():1);
+		memcpy(m,b.data(),b.size());
+		for(size_t k=0;k<rg.size();k++) {
+			std::string c=b.substr(rg[k].first,rg[k].second-rg[k].first);
+			std::vector<result> rs;
+			copy_forms(c,rs);
+			range_forms(m+rg[k].first,m+rg[k].second,"inplace,after="+hexof(b.substr(rg[k].second,2)),false,rs);
+			range_event(c,rs);
+			if(c.size()<=64 || k==0) sampled.push_back(c);
+		}
+		free(m);
+	}
+	// pass 2: next to inaccessible pages (an access outside the range ends the run with a Died event)
+	idx=0;
+	for(size_t i=0;i<contents.size();i++) if((int)(idx++%nshards)==shard) range_at_pages(contents[i]);
+	for(size_t i=0;i<sampled.size();i++) range_at_pages(sampled[i]);
+	return 0;
+}
+
 static int do_urlsb()
 {
 	// util::urlencode(begin,end,streambuf&) into a sink that accepts only `cap` characters;
@@ -589,6 +816,7 @@ int main(int argc,char **argv)
 	else if(m=="rows" && argc>=5) rc=do_rows(atoi(argv[2]),atoi(argv[3]),std::string(argv[4])=="b64");
 	else if(m=="ptr1mod4") rc=do_ptr1mod4();
 	else if(m=="urlsb") rc=do_urlsb();
+	else if(m=="ranges" && argc>=4) rc=do_ranges(atoi(argv[2]),atoi(argv[3]));
 	else if(m=="pieces" && argc>=4) rc=do_pieces(atoi(argv[2]),atoi(argv[3]));
 	tr.close();
 	return rc;
